@@ -708,6 +708,11 @@ func (f *frame) applyContract(in ssa.Instruction, callee *ssa.Function, con *Con
 	var rets []Val
 	if resT == nil {
 		e.bumpWater(nm)
+		// results are discarded (defer, go, expression statement): the contract may still name them
+		res := callee.Signature.Results()
+		for i := 0; i < res.Len(); i++ {
+			rets = append(rets, e.havocVal(fmt.Sprintf("%s.r%d", nm, i), res.At(i).Type()))
+		}
 	}
 	if resT != nil {
 		rv := f.resultVal(nm, resT)
@@ -1034,7 +1039,9 @@ func (f *frame) dynamicCall(in ssa.Instruction, c *ssa.CallCommon, args []Val, p
 		}
 	}
 	for k := range ghostSorts {
-		mods["G."+k] = true
+		if strings.HasPrefix(k, "wr_") || strings.HasPrefix(k, "rd_") {
+			mods["G."+k] = true // a callback may read from the source or write to a sink it was given
+		}
 	}
 	f.havocModsT(h, mods, false, touched, nil, true) // A7: a callback changes only the objects it is handed
 	if resT != nil {
@@ -1192,7 +1199,9 @@ func (w *World) instrMods(e *Engine, fn *ssa.Function, ins ssa.Instruction, out 
 				}
 			}
 			for k := range ghostSorts {
-				out.m["G."+k] = true
+				if strings.HasPrefix(k, "wr_") || strings.HasPrefix(k, "rd_") {
+					out.m["G."+k] = true
+				}
 			}
 			return
 		}
